@@ -39,7 +39,7 @@ use qbice_stable_hash::{BuildStableHasher, SeededStableHasherBuilder, Sip128Hash
 use qbice_storage::intern::{Interned, Interner};
 use serde::{Deserialize, Serialize};
 use simkit::{Rng, label, mix};
-use values::{En, Gen, GenE, Named, SeededState, Tup, UnitS, V, WithSkip};
+use values::{En, Gen, GenE, Named, PairI128, PairU128, PairU16, PairU32, PairU64, SeededState, Tup, UnitS, V, WithSkip};
 
 // ---- simulated streams ---------------------------------------------------------------
 
@@ -473,7 +473,7 @@ trait Rebuild: V {
 }
 
 macro_rules! rebuild_dup { ($($t:ty),*) => {$( impl Rebuild for $t { fn rebuild(&self, _r: &mut Rng) -> Self { self.dup() } } )*}; }
-rebuild_dup!(u8, u16, u32, u64, u128, i8, i16, i32, i64, i128, bool, char, (), String, Named, Tup, UnitS, En);
+rebuild_dup!(u8, u16, u32, u64, u128, i8, i16, i32, i64, i128, bool, char, (), String, Named, Tup, UnitS, En, PairU16, PairU32, PairU64, PairU128, PairI128);
 // a NaN is one value whatever computation produced it (sign, payload, quiet
 // or signalling): the stable hash normalises NaNs
 impl Rebuild for f32 {
@@ -792,6 +792,7 @@ c13_types!(
     (HM<String, u32>, true, c13_one), (HM<u32, Vec<u8>>, true, c13_one), (HS<String>, true, c13_one), (HS<u64>, true, c13_one), (HM<u8, HS<u8>>, true, c13_one),
     (Vec<HS<u8>>, true, c13_one), ((HS<u8>, HS<u8>), true, c13_one), (HM<String, Option<String>>, true, c13_one), (Option<HM<u8, u8>>, true, c13_one),
     (Named, false, c13_one), (Tup, false, c13_one), (En, false, c13_one), (Vec<En>, false, c13_one), (Vec<Tup>, false, c13_one), (HM<String, En>, true, c13_one), ((Tup, Tup), false, c13_one),
+    (PairU16, false, c13_one), (PairU32, false, c13_one), (PairU64, false, c13_one), (PairU128, false, c13_one), (PairI128, false, c13_one), (Vec<PairU128>, false, c13_one),
     // second part of the universe (more.rs)
     (PathBuf, false, c13_one), (Duration, false, c13_one), (NonZeroU32, false, c13_one), (NonZeroI128, false, c13_one), (AtomicU32, false, c13_one), (PhantomData<u8>, false, c13_one),
     (Range<u32>, false, c13_one), (RangeInclusive<i64>, false, c13_one), (RangeFrom<u8>, false, c13_one), (RangeTo<String>, false, c13_one), (RangeToInclusive<u16>, false, c13_one),
